@@ -40,6 +40,35 @@ def run(rep, tier, seed):
         m = re.search(r"<<\s*(\d+),", info.get("bad", "") or "")
         evt = events[int(m.group(1)) - 1] if m and int(m.group(1)) <= len(events) else None
         rep.violation("remote transport deviates from the specification: %s; record: %s" % ((info.get("bad") or "")[:300], json.dumps(evt)), {"events": [evt] if evt else [], "info": info})
+    # ---- the S3 transport (minio client) against an in-memory S3 endpoint with scripted responses: S3Store.tla
+    rep.add_tlc("S3Store: the loops as coded stay within the allowed outcome sets (ASSUME)", vlib.tlc_design("S3Store", "S3Store.cfg", work, workers=4, timeout=1500))
+    rw = vlib.tlc("S3Store", "S3Store.strict.cfg", work, workers=2, timeout=600)
+    if rw.ok or "Assumption" not in rw.out:
+        raise vlib.Infra("S3Store.strict.cfg (HasChunk must report failures) is expected to fail for the code as it is (known finding F23)")
+    s3bin = vlib.go_build("s3")
+    s3trace = os.path.join(work, "s3ops.ndjson")
+    p = vlib.sh("%s -seed %d -len %d -prune 1 -out %s -outprune %s" % (s3bin, seed, 3 if thorough else 2, s3trace, os.path.join(work, "s3prune.ndjson")), timeout=3000, check=False)
+    if p.returncode != 0:
+        raise vlib.Infra("driver s3 failed:\n" + p.stdout[-3000:])
+    vlib.log(p.stdout.strip())
+    s3ev = vlib.read_ndjson(s3trace)
+    cfg_text = open(os.path.join(vlib.SPEC, "cfg", "Trace_S3Store.cfg")).read()
+    res3, info3 = vlib.validate_trace("Trace_S3Store", cfg_text, s3trace, work, timeout=3400)
+    rep.add_tlc("Trace_S3Store validation", res3)
+    if info3["kind"] is None:
+        rep.traces += len(s3ev)
+    else:
+        ln = info3.get("line")
+        evt = s3ev[ln - 1] if ln and ln <= len(s3ev) else None
+        rep.violation("S3 store deviates from the specification: %s; record: %s" % ((info3.get("bad") or "")[:300], json.dumps(evt)), {"events": [evt] if evt else [], "info": info3, "trace_spec": "Trace_S3Store"})
+    for fid in sorted(set(re.findall(r'<<"KNOWN", "([^"]+)", \d+, \d+>>', res3.out))):
+        k = next((x for x in vlib.known_findings() if x.get("status") == "known" and x.get("property") == "C14" and x.get("id") == fid), None)
+        if k:
+            rep.known_finding(k)
+        else:
+            rep.violation("deviation %s observed on the real S3 store and not listed as a known finding" % fid, {"events": []})
+    for e in s3ev:
+        rep.case(["s3", e["op"], e["script"], e["R"], e["verify"], e["unc"], e["prefix"]], any(x != "ok" for x in e["script"]))
     for e in events:
         rep.case(e, e.get("ev") != "retry" or any(x not in ("200",) for x in e.get("script", [])))
     rep.sample(events[5:7] + [e for e in events if e["ev"] == "matrix"][:2] + [e for e in events if e["ev"] == "proto"][:3])
@@ -47,7 +76,8 @@ def run(rep, tier, seed):
                 "{client compressed?} x {server compressed?} x {upstream compressed?} x {verify?} x {GET, PUT}; casync protocol sessions (1 and 2 pooled "
                 "sessions: existing, missing, existing again, HasChunk missing/existing); distinct = different record; non-trivial = script contains a non-200 response, or matrix/protocol record")
     rep.trusted = ["keep-alives are disabled on the scripted server so that net/http's transparent retry of idempotent requests does not add hidden attempts"]
-    rep.assumptions = ["S3/SFTP/GCS transports are not exercised offline"]
+    rep.assumptions = ["the S3 transport runs against an in-memory S3 endpoint written for this harness (harness/fakes/s3.go); the minio client's own "
+                       "retries of 429/5xx responses are outside desync's budget and avoided by using a status it does not retry; SFTP and GCS are not exercised offline"]
 
 
 def replay(path):
@@ -55,6 +85,9 @@ def replay(path):
     work = vlib.workdir("C14-replay")
     f = os.path.join(work, "trace.ndjson")
     vlib.write_ndjson(f, d["replay"]["events"])
-    res, info = vlib.validate_trace("Trace_HttpRetry", TRACE_CFG, f, work)
+    if d["replay"].get("trace_spec") == "Trace_S3Store":
+        res, info = vlib.validate_trace("Trace_S3Store", open(os.path.join(vlib.SPEC, "cfg", "Trace_S3Store.cfg")).read(), f, work)
+    else:
+        res, info = vlib.validate_trace("Trace_HttpRetry", TRACE_CFG, f, work)
     print(d["what"]); print("re-validation:", info)
     return 0 if info["kind"] is None else 1
